@@ -544,6 +544,8 @@ func indirect(v reflect.Value, decodingNull bool) (Unmarshaler, encoding.TextUnm
 }
 
 // rawRead read and discard a value
+var errNegativeLength = errors.New("nbt: negative array or list length")
+
 func (d *Decoder) rawRead(tagType byte) error {
 	var buf [8]byte
 	switch tagType {
@@ -569,6 +571,9 @@ func (d *Decoder) rawRead(tagType byte) error {
 		if err != nil {
 			return err
 		}
+		if aryLen < 0 {
+			return errNegativeLength
+		}
 
 		if _, err = io.CopyN(io.Discard, d.r, int64(aryLen)); err != nil {
 			return err
@@ -577,6 +582,9 @@ func (d *Decoder) rawRead(tagType byte) error {
 		aryLen, err := d.readInt32()
 		if err != nil {
 			return err
+		}
+		if aryLen < 0 {
+			return errNegativeLength
 		}
 		for i := 0; i < int(aryLen); i++ {
 			if _, err := d.readInt32(); err != nil {
@@ -588,6 +596,9 @@ func (d *Decoder) rawRead(tagType byte) error {
 		aryLen, err := d.readInt32()
 		if err != nil {
 			return err
+		}
+		if aryLen < 0 {
+			return errNegativeLength
 		}
 		for i := 0; i < int(aryLen); i++ {
 			if _, err := d.readInt64(); err != nil {
@@ -603,6 +614,9 @@ func (d *Decoder) rawRead(tagType byte) error {
 		listLen, err := d.readInt32()
 		if err != nil {
 			return err
+		}
+		if listLen < 0 {
+			return errNegativeLength
 		}
 		for i := 0; i < int(listLen); i++ {
 			if err := d.rawRead(listType); err != nil {
